@@ -123,6 +123,7 @@ class Work:
     EVINST_FILES = [
         "queue/concurrent_array_blocking_queue.go", "queue/concurrent_linked_blocking_queue.go", "queue/delay_queue.go",
         "queue/concurrent_linked_queue.go", "syncx/limit_pool.go", "syncx/segment_key_lock.go", "syncx/cond.go",
+        "queue/concurrent_priority_queue.go", "list/concurrent_list.go", "list/copy_on_write_array_list.go",
     ]
 
     def evinst_repo(self):
